@@ -212,6 +212,8 @@ class Unit:
         self.rules = {}  # rule -> list of descriptions
         self.functions = []  # functions under contract: dict(name, rel, line, rules, gen_name)
         self.stubs = []
+        self.holes = []      # (rel, lo, hi) spans inside covered text that were moved into external_body stubs (E9)
+        self.covered = []    # (rel, lo, hi) byte spans of source text that is IN the unit with its body verified / its definition used verbatim
         self.assumed = []
         self._modstack = []
         self.e9_stubs = []
@@ -459,6 +461,7 @@ class Unit:
         names = []
         for path in paths:
             it = sf.item(path)
+            self.covered.append((sf.rel, it["span"][0], it["span"][1]))
             edits = []
             for a in it.get("attrs", []):
                 if a["name"] == "cfg":
@@ -507,6 +510,7 @@ class Unit:
     def take(self, sf, path, kind=None, keep_derive=(), extra_attrs="", make_pub=True, structural=False):
         it = sf.item(path, kind)
         k = it["kind"]
+        self.covered.append((sf.rel, it["span"][0], it["span"][1]))
         if structural:
             # E2: a field-less enum deriving PartialEq gets Eq + Structural so that exec `==` is spec equality.
             # (`#[derive(Structural)]` inside a nested module crashes this Verus build; the manual impl is what the
@@ -796,6 +800,11 @@ class Unit:
         # closures left verbatim in the verified body: Verus knows nothing about what an un-annotated closure returns, so an
         # obligation of this function that fails may fail for want of a closure contract (check.py: UNDECIDED, not VIOLATION)
         rec["opaque_closures"] = 0 if (external_body or drop_body or is_trait_sig) else _residual_closures(it, it["span"][0], it["span"][1], edits)
+        if not (external_body or drop_body):
+            self.covered.append((sf.rel, it["span"][0], it["span"][1]))
+        else:
+            # a stub: only its signature is in the unit, its body is NOT seen by the verifier
+            self.covered.append((sf.rel, it["sig"][0], it["sig"][1]))
         if is_trait_sig:
             self.rule("E1", "trait fn %s (declaration)  <- %s:%d" % (path, sf.rel, rec["line"]))
         elif external_body or drop_body:
@@ -908,6 +917,7 @@ class Unit:
             call = opts["replacement"].replace("$CALL", call)
         out = []
         for (a, b) in spans:
+            self.holes.append((sf.rel, a, b))   # text moved into an external_body stub: not seen by the verifier
             self.rule(rid, "%s: `%s` -> %s(%s)  [%s:%d]" % (path, anchor if len(anchor) < 80 else anchor[:77] + "...", name, args, sf.rel, sf.line_of(a)))
             out.append((a, b, call, "rule", rid))
         return out
@@ -1074,6 +1084,7 @@ class Unit:
         self.rule("E5", "%s: bytes %d..%d (lines %d..%d) lifted into fn %s(%s) %s" % (path, lo, hi, line, sf.line_of(hi), name, params, what))
         self.functions.append(dict(name=path + "[" + name + "]", rel=sf.rel, line=line, rules=["E5"], gen_name=name,
                                    external_body=False, under_contract=True, opaque_closures=_residual_closures(it, lo, hi, edits)))
+        self.covered.append((sf.rel, lo, hi))
 
     # ---- render -----------------------------------------------------------
     def render(self, header_extra=""):
